@@ -60,6 +60,9 @@ fn run_one(tracer: &Tracer, cfg: &Cfg, ops: &[Value], plan: Option<FaultPlan>, p
                 }
             }
             let ev = w.exec(op);
+            if matches!(op["op"].as_str(), Some("commit") | Some("prepare_commit") | Some("merge") | Some("rollback")) {
+                w.exec(&json!({"op":"reload"}));
+            }
             let failed = ev["ok"] == json!(false) && ev.get("err").map(|e| e != "nowriter").unwrap_or(true);
             if failed && op["op"] != "merge" && op["op"] != "gc" {
                 match policy {
@@ -113,6 +116,7 @@ fn run_one(tracer: &Tracer, cfg: &Cfg, ops: &[Value], plan: Option<FaultPlan>, p
             std::thread::sleep(std::time::Duration::from_millis(if round < 3 { 15 } else { 100 }));
         }
         w.exec(&json!({"op":"wait_merges"}));
+        w.exec(&json!({"op":"reload"}));
         w.exec(&json!({"op":"observe"}));
     }));
     if r2.is_err() {
